@@ -150,7 +150,7 @@ Fixpoint flatten_pairs (l : list (N * N)) : list Z :=
 (* The trailing field [fund] describes how the harness funds the wallet (not modelled here, the
    commit transaction is the TransactionBuilder's): values >= 4 declare a wallet whose only
    cardinal outputs are worth 500 sat, which no batch can be funded from; the planner must
-   refuse ([-3]).  The harness checks the refusal independently (S).
+   refuse ([-3]); 7 marks a case run end to end through the command line (same observation).  The harness checks the refusal independently (S).
    Input  mode n postage etching premine nP (value offset)*nP nS value*nS fund
    Output nOut values.. nPtr pointers.. (vout offset)*n  rune(0 | 1 vout)  nInputs commitInput *)
 Definition run_C21 (inp : list Z) : list Z :=
@@ -159,7 +159,7 @@ Definition run_C21 (inp : list Z) : list Z :=
     let '(parents, rest1) := read_pairs21 (Z.to_nat np) rest in
     let sats := match rest1 with [] => [] | k :: r => ns (firstn (Z.to_nat k) r) end in
     let fund := match rest1 with [] => 0%Z | k :: r => nth 0 (skipn (Z.to_nat k) r) 0%Z end in
-    if (4 <=? fund)%Z then [(-3)%Z] else
+    if ((4 <=? fund) && (fund <=? 6))%Z then [(-3)%Z] else
     let b := mkBatch (mode_of (nZ m)) parents (Z.to_nat n) (nZ postage) sats
                      (negb (Z.eqb e 0)) (negb (Z.eqb pm 0)) in
     zN (N.of_nat (length (reveal_outputs b))) :: zs (reveal_outputs b)
